@@ -119,6 +119,12 @@ def project_desugared(des):
 
 def compare_desugarings(ctx, tree, des, rep):
     """model desugar (wire 103) of the projected twin vs the projection of the harness's reference desugaring"""
+    if any(sheetgen.INCLUDE_CMP.match(str(r.get("include_if", ""))) for r in sheetgen.flatten_sugared(tree)):
+        # an include_if cell that compares a loop variable with a word: Comp/Blocks.v's inclusion cells are literals and plain
+        # references only (IncTrue | IncFalse | IncRef), the comparison form is outside the model's language for now; the twin
+        # oracle (implementation, sugared vs reference desugaring) still judges these sheets
+        ctx.count("desugar_model_vs_twin_reference_skipped(include_if comparison outside the model language)")
+        return
     md = c03_blocks.model_desugar(ctx.model, project_sugared(tree), CTX)
     want = ("ok", project_desugared(des))
     ctx.count("desugar_model_vs_twin_reference")
